@@ -133,7 +133,7 @@ def run_offset_node(ctx, case, loc, pre, label):
     touched = []
     root = SObj('root', {}, _lines=lines)
     self_ = SObj('self', {}, root=root)
-    self_._set('_touchall', lambda *a, **k: touched.append(1))
+    self_._set('_touchall', lambda parents=True, self_=True, children=True: touched.append((parents, self_, children)))
 
     ln, col = ctx.int('ln'), ctx.int('col')
     dln, dcol = ctx.int('dln'), ctx.int('dcol_offset')
@@ -155,7 +155,8 @@ def run_offset_node(ctx, case, loc, pre, label):
     except _Return:
         ctx.notes['outcome'] = 'early-return'
         ctx.prove(f'{pre}.noop.only_when_zero_delta[{label}]', and_(eq(dln, 0), eq(dcol, 0)))
-        ctx.prove(f'{pre}.noop.flushes_subtree[{label}]', bool(touched))
+        ctx.prove(f'{pre}.noop.flushes_subtree[{label}]', len(touched) == 1 and touched[0][1] is True and touched[0][2] is True,
+                  info='with a zero delta the walk is skipped, so self and every node below must be flushed explicitly')
         return
     ctx.prove(f'{pre}.walk.only_when_nonzero_delta[{label}]', or_(dln != 0, dcol != 0))
     lno, colo = env.lookup('lno'), env.lookup('colo')
@@ -416,6 +417,18 @@ def specs_text(prop):
                  notes='piecewise lists compared with the uniform splice specification at a skolem index; '
                        '_params_offset inlined from the real source, root._offset is a recording stub'),
     ]
+
+
+def specs_flush(prop='C02'):
+    """the cache-flush obligations of the _offset walk only (flush.cache_cleared for every visited node, noop path flushes
+    the subtree): the same fragment as C11's, on the sub-table of cases with tail = head = None - the flush does not
+    depend on the tail / head settings"""
+    from pyvc.contract import Fragment
+    cases = [c for c in offset_cases() if c['tail'] is None and c['head'] is None]
+    return [Fragment('fst_core:_offset', prop, 'offset', cases, run_offset_node, min_obligations=3,
+                     native=('k_offset', 'replay_offset_node'),
+                     notes='per-node body of the offset walk: every node the walk visits is flushed (memo cleared) before the '
+                           'walk decides to stop / skip / descend; the zero-delta path flushes the subtree')]
 
 
 def specs(prop='C11'):
